@@ -23,7 +23,8 @@ ASSUMPTIONS = [
 PATTERNS = [
     "/a", "/a.b", "/a+b", "/b",
     "/{x}", "/{x:int}", "/{x:decimal}", "/{x:uuid}", "/{x:date}", "/{x:any}",
-    "/a/{x:int}", "/é/{x}", "/{x}/b", "/{x:int}/{y}", "/a/{x:any}", "/v{x:int}.{y:int}", "/{x}.txt", "/{x:decimal}/b", "/{x:date}/{y:uuid}", "/{x:decimal}/{y}", "/{x:decimal}/{n:int}",
+    "/a/{x:int}", "/é/{ж}", "/{x}/b", "/{x:int}/{y}", "/a/{x:any}", "/v{x:int}.{y:int}", "/{x}.txt", "/{x:decimal}/b", "/{x:date}/{ü:uuid}", "/{x:decimal}/{y}", "/{x:decimal}/{n:int}",
+    "/{u}/{d:date}",  # an untyped placeholder in front of one whose text may match the shape without denoting a value (2021-13-45)
 ]
 UU = "90478484-0988-45fc-91fe-757d90136892"
 UU1 = "6ba7b810-9dad-11d1-80b4-00c04fd430c8"  # version 1; the nil UUID and a version-7-shaped one are in VALUE_TEXTS
@@ -68,24 +69,34 @@ def build_router(iface, table, log):
         from baize import wsgi as W
 
         def make(i):
-            def ep(environ, start_response):
-                pp = W.Request(environ).path_params
-                log.append((i, dict(pp)))
-                pp["touched-by-endpoint"] = True  # an application may use the mapping as scratch space; the next request must get its own
-                pp.pop(next(iter(pp)), None)
-                return W.PlainTextResponse(str(i))(environ, start_response)
-            return ep
+            class Ep:
+                """an endpoint object that is callable and - like an empty registry - falsy"""
+
+                def __len__(self):
+                    return 0
+
+                def __call__(self, environ, start_response):
+                    pp = W.Request(environ).path_params
+                    log.append((i, dict(pp)))
+                    pp["touched-by-endpoint"] = True  # an application may use the mapping as scratch space; the next request must get its own
+                    pp.pop(next(iter(pp)), None)
+                    return W.PlainTextResponse(str(i))(environ, start_response)
+            return Ep()
         return W.Router(*[(p, make(i)) for i, p in enumerate(table)])
     from baize import asgi as A
 
     def amake(i):
-        async def ep(scope, receive, send):
-            pp = A.Request(scope, receive, send).path_params
-            log.append((i, dict(pp)))
-            pp["touched-by-endpoint"] = True
-            pp.pop(next(iter(pp)), None)
-            return await A.PlainTextResponse(str(i))(scope, receive, send)
-        return ep
+        class Ep:
+            def __len__(self):
+                return 0
+
+            async def __call__(self, scope, receive, send):
+                pp = A.Request(scope, receive, send).path_params
+                log.append((i, dict(pp)))
+                pp["touched-by-endpoint"] = True
+                pp.pop(next(iter(pp)), None)
+                return await A.PlainTextResponse(str(i))(scope, receive, send)
+        return Ep()
     return A.Router(*[(p, amake(i)) for i, p in enumerate(table)])
 
 
